@@ -373,7 +373,9 @@ PROPS = {
         level_text='Theorem debug_lock_no_deadlock_no_crosstalk (interleaving semantics of the RWMutex protocol of bindFast / captureDoBindDebugging: for any '
                    'mix of failing and succeeding Binds and every schedule some unfinished Bind can always step, and every line logged while debugging is on '
                    'belongs to the Bind holding the write lock) and chain_refines (what runs is the included providers of the final list, which is what the '
-                   'Debugging value is filled from); Coq, no axioms.',
+                   'Debugging value is filled from), and end to end C12_whatever_runs_is_listed_as_included (cases without Reorder annotation and init function, '
+                   'no hypothesis on the plan: whatever any session logs carries the include mark of the final list, so a provider reported as excluded '
+                   'never runs); Coq, no axioms.',
         level_note=CONC_NOTE + ' Invocations (not Binds) running while a failed Bind is being replayed also log into its trace; that is outside the statement. '
                    'Defect D26 (asking for *Debugging changed which providers are included) was repaired in /repo.',
         design_ref='DESIGN.md section 8 (C12)',
